@@ -143,6 +143,9 @@ impl TilesReaderTrait for MemReader {
 			.filter(|((z, x, y), _)| *z == bbox.level && bbox.contains3(&TileCoord3::new(*x, *y, *z).unwrap()))
 			.map(|((z, x, y), b)| (TileCoord3::new(*x, *y, *z).unwrap(), Blob::from(b.clone())))
 			.collect();
+		// row-major like `TileBBox::iter_coords` (the order of the trait default and of the real readers)
+		let mut v = v;
+		v.sort_by_key(|(c, _)| (c.y, c.x));
 		versatiles_core::types::TileStream::from_vec(v)
 	}
 }
@@ -1205,6 +1208,35 @@ fn same_blob_sequences(out: &mut Out, args: &Args) {
 }
 
 // ---------------------------------------------------------------------------------------------
+// PMTiles root directory at its size budget (16384 − 127 = 16257 bytes compressed): seeking generator of
+// `boundary.rs` (seeded regression C04-12: a root of 16258…16384 bytes overwrote the head of the metadata)
+// ---------------------------------------------------------------------------------------------
+fn rootb_case(out: &mut Out, args: &Args, rt: &tokio::runtime::Runtime, delta: i64, tiles: &crate::indep_formats::TileMap) {
+	let line = format!("C04 rootb {delta}");
+	// gzip → uncompressed, so that the stored blob lengths (which determine the directory bytes) are the payload lengths
+	let src: Vec<(Coord3, Vec<u8>)> = tiles.iter().map(|(c, p)| (*c, gz_enc(p, 1))).collect();
+	let path = target_path(args, &format!("rootb_{delta}"), "pmtiles");
+	let reader = MemReader::new(TileFormat::PBF, TileCompression::Gzip, source_tilejson(true), &src);
+	let cp = TilesConverterParameters::new(Some(TileCompression::Uncompressed), None, false, false, false);
+	let expected: BTreeMap<Coord3, Vec<u8>> = tiles.iter().map(|(c, p)| (*c, p.clone())).collect();
+	// a current-thread runtime: the converter's parallel map then completes in submission order (row-major), the order the
+	// seeking generator assumed when it measured the directory; the multi-thread runtime is used by the `leaves` case
+	let _ = rt;
+	let rt1 = tokio::runtime::Builder::new_current_thread().enable_all().build().unwrap();
+	let ans = convert_and_check(out, &rt1, &line, "rootb", reader.boxed(), cp, &path, &expected, TileCompression::Uncompressed, true);
+	// what the writer really produced: root directory length (header bytes 16..24), leaf directories (48..56)
+	let raw = std::fs::read(&path).unwrap_or_default();
+	if raw.len() >= 56 {
+		let root_len = u64::from_le_bytes(raw[16..24].try_into().unwrap());
+		let leaf_len = u64::from_le_bytes(raw[48..56].try_into().unwrap());
+		out.extra.insert(format!("rootb_{delta}"), json!({"tiles": tiles.len(), "root_directory_bytes": root_len, "leaf_directory_bytes": leaf_len, "budget": 16257}));
+		out.oracle(127 + root_len <= 16384, "C04 rootb: root directory reaches into the metadata", json!({"kind":"rootb_overlap","world":"rootb"}), json!({"case": line, "root_directory_bytes": root_len}));
+	}
+	out.case(&line, &ans, true);
+	cleanup(&path);
+}
+
+// ---------------------------------------------------------------------------------------------
 // assumed codec laws, tested on the real crates
 // ---------------------------------------------------------------------------------------------
 fn law_checks(out: &mut Out, args: &Args, rng: &mut Rng) {
@@ -1309,6 +1341,14 @@ fn replay_line(out: &mut Out, args: &Args, rt: &tokio::runtime::Runtime, n: &mut
 		["C04", "rec", s, d, kind, p] => rec_case(out, parse_comp(s).unwrap(), parse_comp(d).unwrap(), kind, &unhex(p)),
 		["C04", "world", kind, fmt, s, tg, f, a, bb, c] => world_case(out, args, rt, kind, fmt, parse_comp(s).unwrap(), tgt(tg), b(f), a.parse().unwrap(), bb.parse().unwrap(), c.parse().unwrap()),
 		["C04", "dedup", spec] => dedup_case(out, args, rt, spec),
+		["C04", "rootb", d] => {
+			// the sets are found by search: replay all of the tier and run the one(s) with that delta
+			for (delta, tiles) in crate::boundary::pmtiles_root_boundary_sets(args.thorough()) {
+				if delta.to_string() == *d {
+					rootb_case(out, args, rt, delta, &tiles);
+				}
+			}
+		}
 		["C04", "leaves", s, tg, f] => leaves_case(out, args, rt, parse_comp(s).unwrap(), tgt(tg), b(f)),
 		["C04", "stream", s, d, f] => stream_check(out, rt, parse_comp(s).unwrap(), parse_comp(d).unwrap(), b(f)),
 		["C04", "e2e", fmt, tf, s, tg, f] => e2e_case(out, args, rt, n, fmt, tf, parse_comp(s).unwrap(), tgt(tg), b(f)),
@@ -1366,6 +1406,10 @@ pub fn run(args: &Args) {
 				stream_check(&mut out, &rt, s, d, f);
 			}
 		}
+	}
+	// D0. PMTiles root directory at its budget (16257 bytes) ± delta
+	for (delta, tiles) in crate::boundary::pmtiles_root_boundary_sets(args.thorough()) {
+		rootb_case(&mut out, args, &rt, delta, &tiles);
 	}
 	// D'. PMTiles with leaf directories
 	leaves_case(&mut out, args, &rt, TileCompression::Gzip, Some(TileCompression::Brotli), false);
@@ -1451,7 +1495,7 @@ pub fn run(args: &Args) {
 		}
 	}
 	for n in [
-		"checklist 1 (thresholds): 999/1000-byte duplicates + 998..1001 in the dedup stream (versatiles de-dup limit), 256-block border at zoom 9, 16384-entry / 16 KiB PMTiles root (leaves case, leaf size asserted from the header), 2000-row mbtiles batches (4225-tile world), zoom 31",
+		"checklist 1 (thresholds): PMTiles root directory at 16257 bytes ± {0,1,127,128} (seeking generator boundary.rs); 999/1000-byte duplicates + 998..1001 in the dedup stream (versatiles de-dup limit), 256-block border at zoom 9, 16384-entry / 16 KiB PMTiles root (leaves case, leaf size asserted from the header), 2000-row mbtiles batches (4225-tile world), zoom 31",
 		"checklist 2 (faults): undecodable source tile (world fault: must fail when recoding is needed, byte-identical pass-through otherwise); empty / truncated blobs in proc/rec",
 		"checklist 3 (payloads): 0 and 1 byte, duplicates within and across blocks, 70 KiB / 200 KiB, undecodable, payloads that are valid streams of another codec",
 		"checklist 4 (options): target x force x flip_y x swap_xy x bbox (world opts); override_compression is exercised by C05/C06",
